@@ -140,6 +140,29 @@ impl Write for CountingWriter {
     }
 }
 
+/// A writer that accepts at most a few bytes per call (short writes, as a pipe or a socket may do).
+struct ShortWriter {
+    buf: Vec<u8>,
+    max: usize,
+}
+impl Write for ShortWriter {
+    fn write(&mut self, b: &[u8]) -> std::io::Result<usize> {
+        let n = b.len().min(self.max);
+        self.buf.extend_from_slice(&b[..n]);
+        Ok(n)
+    }
+    fn flush(&mut self) -> std::io::Result<()> {
+        Ok(())
+    }
+}
+
+/// The image written through a writer that takes at most `max` bytes per call, and the count reported.
+pub fn write_bytes_short(dict: &Dictionary, max: usize) -> (usize, Vec<u8>) {
+    let mut w = ShortWriter { buf: vec![], max };
+    let ret = dict.write(&mut w).expect("write to memory");
+    (ret, w.buf)
+}
+
 pub fn write_bytes(dict: &Dictionary) -> (usize, Vec<u8>) {
     let mut w = CountingWriter { buf: vec![] };
     let ret = dict.write(&mut w).expect("write to memory");
@@ -181,8 +204,11 @@ fn apply(dict: Dictionary, step: &DStep, log: &mut Vec<Value>, quiet: bool) -> R
                 }
                 Err(_) => (false, 0, 0),
             };
+            // the same image through a writer that takes at most 5 bytes per call
+            let (sret, sbytes) = write_bytes_short(&dict, 5);
             if !quiet {
-                log.push(json!({"ev": "wr", "ret": ret, "emitted": bytes.len(), "h1": fnv31(&bytes), "h2": h2, "len2": len2, "ok": ok}));
+                log.push(json!({"ev": "wr", "ret": ret, "emitted": bytes.len(), "h1": fnv31(&bytes), "h2": h2, "len2": len2, "ok": ok,
+                                "short_ok": sbytes == bytes && sret == sbytes.len()}));
             }
             r.map_err(|_| ())
         }
